@@ -1506,6 +1506,14 @@ impl<'a, Octs: Octets + ?Sized> MessageTsig<'a, Octs> {
             // If it's None, then it's some other record type, and we just
             // continue.
             if let Some(record) = record {
+                // RFC 8945, section 4.2: CLASS must be ANY and TTL must be
+                // 0. Both are part of the digested TSIG variables, where we
+                // use these constants, so a record carrying anything else
+                // cannot have been signed.
+                if record.class() != Class::ANY || record.ttl().as_secs() != 0 {
+                    return Err(TsigError::Invalid);
+                }
+
                 // We got a valid TSIG, now assert that it's the last record:
                 if section.next().is_some() {
                     return Err(TsigError::Position);
